@@ -201,14 +201,7 @@ theorem channel_delivers_what_was_sent (c : Chan.Cipher) (hc : Chan.CipherOk c) 
     (k : Nat) (got : Bytes) (hgot : (Chan.run c size (Chan.init start) ops).r.core.reasm.out[k]? = some got) :
     (Chan.run c size (Chan.init start) ops).s.sent[k]? = some got := by
   obtain ⟨hS, hR⟩ := Chan.inv_run c hc size hsz start ops (Chan.init start) (Chan.inv_init c start hs).1 (Chan.inv_init c start hs).2 hok
-  have hlog : (Chan.run c size (Chan.init start) ops).s.log =
-      (Chan.run c size (Chan.init start) ops).s.log.take (Chan.run c size (Chan.init start) ops).r.nrel ++
-      (Chan.run c size (Chan.init start) ops).s.log.drop (Chan.run c size (Chan.init start) ops).r.nrel := (List.take_append_drop _ _).symm
-  have h1 := hS.cons
-  rw [hlog, Chan.consume_append, ← hR.core] at h1
-  have h2 := Chan.out_prefix c ((Chan.run c size (Chan.init start) ops).s.log.drop (Chan.run c size (Chan.init start) ops).r.nrel)
-    (Chan.run c size (Chan.init start) ops).r.core
-  rw [h1] at h2
+  have h2 := Chan.delivered_prefix_sent c start _ hS hR
   obtain ⟨t, ht⟩ := h2
   have ht' : (Chan.run c size (Chan.init start) ops).r.core.reasm.out ++ t = (Chan.run c size (Chan.init start) ops).s.sent := ht
   rw [← ht']
